@@ -17,17 +17,25 @@ ASSUMPTIONS = [
     "(getTips() after the call) and handed to the model; theorems hold for every order",
 ]
 META = {
-    "text": "Coq theorems (all tree shapes, blocks, both reasons, all interleavings, both tree kinds) on the executable model "
-            "coq/Tree/TreeDefs.v: invalidateSubtree and revalidateSubtree, every early exit included, preserve the flag invariant "
-            "(proper tree, failed parent => FAILED_CHILD, so every descendant of an invalid block is failed and descendants invalid "
-            "for another reason stay invalid); pointwise exactness of the traversal (only FAILED_CHILD of visited blocks changes); "
-            "lifted over arbitrary op lists of inv/reval/rm/setState. _partial / not proved: inv_reval_id (restoration of flags and "
-            "tips), the tip-set and active-chain conjuncts, best_chain_never_invalid - these are decided on the implementation by "
-            "the direct oracle of harness/h_tree.cpp around every inv/reval (subtree unusable, outside unchanged, best chain off the "
-            "subtree and free of failed blocks, flags and tips restored once everything invalidated is revalidated) and by the "
-            "per-step comparison with the model (exhaustive over tree shapes x op sequences, and random histories)",
-    "note": "Trusted: Coq kernel, extraction, OCaml driver, C++ harness; the traversals are modelled as one oldest-first pass",
-    "technique": "Coq proof (invariant over newest-first block lists) + extraction-based differential correspondence",
+    "text": "Coq theorems (all tree shapes, blocks, both reasons, all interleavings, ALT tree with empty payloads and PoW tree) "
+            "on the executable model coq/Tree/TreeDefs.v: invalidate_exact and revalidate_exact in descendant-closure form "
+            "(outside subtree(b) no failure flag changes, b gets/loses exactly the reason, proper descendants keep their own flags "
+            "and all carry FAILED_CHILD after invalidation; after revalidation FAILED_CHILD inside subtree(b) is carried exactly "
+            "below failed blocks, so descendants invalid for another reason stay invalid), every early exit included; inv_reval_id: "
+            "revalidate(invalidate s b r) b r restores the three failure flags of EVERY block and the TIP SET when b did not carry r "
+            "and no FAILED_CHILD inside subtree(b) was stale (the active tip moves to the parent of b when b was on the best chain "
+            "and stays there in the ALT tree / is re-determined by chain work in the PoW tree); FAILED_CHILD is a function of the own "
+            "flags (algebra of nested inv/reval); best_chain_never_invalid for every operation of both trees incl. the intermediate "
+            "state inside invalidateSubtree; the flag invariant and the non-failed tip are preserved by arbitrary op lists. "
+            "The tie to the code is the per-step comparison with AltBlockTree / BlockTree<BtcBlock> (exhaustive over tree shapes x "
+            "op sequences, random histories) and the direct oracle of harness/h_tree.cpp evaluated on the implementation around "
+            "every inv/reval",
+    "note": "Trusted: Coq kernel, extraction, OCaml driver, C++ harness; the preorder traversals are modelled as one oldest-first "
+            "pass (validated by the correspondence run). Stale FAILED_CHILD (removeSubtree drops FAILED_POP but keeps the "
+            "descendants' FAILED_CHILD) is code behaviour: restoration theorems and the restoration oracle assume its absence "
+            "inside subtree(b)",
+    "technique": "Coq proof (invariants over newest-first block lists, pointwise traversal characterisation) + extraction-based "
+                 "differential correspondence + direct oracle on the implementation",
 }
 
 
